@@ -154,6 +154,60 @@ def judge_scripts(out, stream, cases, texts):
                      classify=lambda c, i: "one-script/%d-ops/%d-frames" % (len(c["ops"]), i.count("|")))
 
 
+def run_same_address(rnd, n):
+    """two API objects of one class, different device ids and keys, CONNECTED (real connect()) to the same address - two applications,
+    or two logical devices behind one address - and operating at the same time against a device that takes 10 ms per reply and hands out
+    a different session id per login.  Each object must have a connection of its own carrying its own exchange"""
+    async def go():
+        ip = world.loopback_ip(11); cases = []; texts = []
+        for j in range(n):
+            t2 = j % 2 == 1; dev = world.FakeDevice(ip, 10000 if t2 else 9957); dev.delay = 0.01; count = [0]
+            def policy(conn, d):
+                if d[8:12] == b"\0\0\0\0": count[0] += 1; return bytes(8) + bytes([0xa0 + conn, count[0], 0x5a, conn]) + bytes(12)
+                return b"\x01" * 20
+            dev.policy = policy
+            await dev.listen(True)
+            try:
+                kinds = [7, 8] if t2 else [1, 3, 5, 2]
+                objs = []
+                for _ in range(2):
+                    c = clean_case(rnd, rnd.choice(kinds)); c["id"] = "%06x" % rnd.randrange(1 << 24); c["key"] = "%02x" % rnd.randrange(256)
+                    objs.append((c, (world.SwitcherType2Api if t2 else world.SwitcherType1Api)(ip, c["id"], c["key"])))
+                for _, api in objs: await asyncio.wait_for(api.connect(), 10)
+                async def one(c, api):
+                    try: return world.show_response(c["kind"], await asyncio.wait_for(world.call_op(api, c["kind"], c["args"]), 10))
+                    except asyncio.TimeoutError: return "exc:NeverReturned"
+                    except Exception as e: return "exc:" + world.exc_name(e)
+                outs = await asyncio.gather(*[one(c, api) for c, api in objs])
+                for _, api in objs:
+                    try: await asyncio.wait_for(api.disconnect(), 10)
+                    except Exception: pass
+                for _ in range(3): await asyncio.sleep(0)
+            finally:
+                await dev.listen(False)
+            # per object: the connection whose first frame carries its credential (type 1: the key at byte 40; type 2: the id at 40-42)
+            for (c, _), o in zip(objs, outs):
+                cred = bytes.fromhex(c["id"]) if t2 else bytes.fromhex(c["key"])
+                mine = sorted({k for k, d in dev.log if d[8:12] == b"\0\0\0\0" and d[40:40 + len(cred)] == cred})
+                frames = [d for k, d in dev.log if k in mine]; replies = [r for k, r in dev.sent if k in mine]
+                if frames and len(frames[0]) >= 28: c["now"] = int.from_bytes(frames[0][24:28], "little")
+                c["replies"] = [r.hex() for r in replies]; c["connections"] = dev.conns; c["mine"] = len(mine)
+                cases.append(c); texts.append("".join(f.hex() + "|" for f in frames) + o)
+        return cases, texts
+    return asyncio.run(go())
+
+
+def judge_same_address(out, stream, cases, texts):
+    mo = [field_view(t) for t in lib.run_model([world.model_line(c) for c in cases])]; io = [field_view(t) for t in texts]
+    def verdict(c, t):
+        if c["connections"] != 2: return "the device saw %d connections for two connected API objects" % c["connections"]
+        if c["mine"] != 1: return "%d connections carry a login with this object's credential" % c["mine"]
+        return "ok"
+    lib.differential(out, stream, cases, io, mo, ["ok"] * len(cases), lambda c: oc.describe(c) + " (one of two objects connected to the same address)",
+                     nontrivial=lambda c: True, sample=lambda c: oc.describe(c)[:300], classify=lambda c, i: "same-address/" + world.KIND_NAMES[c["kind"]],
+                     impl_spec=[verdict(c, t) for c, t in zip(cases, texts)])
+
+
 class Interleaved(world.ScriptedApi):
     def __init__(self, rnd, traveller, *a):
         super().__init__(*a); self.rnd = rnd; self.trav = traveller
@@ -230,6 +284,8 @@ def run(tier, rnd, out):
     judge(out, "two-objects-interleaved", cases, texts)
     cases, texts = run_interleaved(rnd, 40 if tier == "quick" else 1000, four_frames=True)
     judge(out, "four-frame-thermostat-flow-interleaved-with-another-object", cases, texts)
+    cases, texts = run_same_address(rnd, 6 if tier == "quick" else 100)
+    judge_same_address(out, "two-objects-connected-to-one-address-operating-at-once", cases, texts)
     tcp = [c for c in oc.mixed_cases(rnd, 2 if tier == "quick" else 15) if all(len(r) > 0 for r in c["replies"])]
     judge(out, "single-over-tcp", tcp, asyncio.run(oc.run_tcp(tcp)))
 
